@@ -114,6 +114,13 @@ P.update({
         "mixed, no final line feed): the output must equal the model byte for byte, and the same stream cut into other read() "
         "results (1..4095 bytes, random, hazard cuts, a real pipe with pauses) must give the same bytes and status.",
    note=SAN + "probe H4 (src/prchunk.c): window offsets ordered, bytes out + held == bytes read on every fill; lines beyond the 16 MiB window are outside the judged domain. " + TB, ref="3 C18"),
+ "C20": dict(cat="exploration", tech="differential monitor across injected configurations (environment + clock injected at gettimeofday()/time() by the shim) + name-table oracle for locale pairs + ASan/UBSan",
+   text="30 invocation templates over all tools (22 fully specified, 8 underspecified with --base) each run under the baseline "
+        "and under random TZ (15 values), LANG/LC_ALL/LC_TIME/LANGUAGE (12 values) and clock (20 instants + random + real) "
+        "settings: stdout and exit status must be identical, the responsible setting is isolated on a difference; positive "
+        "control that the injected clock is seen; --from-locale A / --locale B pairs (quick: 500 random pairs, thorough: 40 per "
+        "parsing locale) in either order and spelling in dconv, dadd, dround, dseq against data/locale.",
+   note=SAN + "the clock is injected at the libc boundary (shim), TZ/LANG through the real environment; inputs that leave fields open without --base follow the clock by design. " + TB, ref="3 C20"),
 })
 
 NOT_YET = {}
